@@ -3,7 +3,7 @@ import ast
 
 from sa import guards as G
 from sa.effects import Effects
-from sa.flow import GuardMap, Provenance
+from sa.flow import GuardMap, Provenance, ReachingDefs
 from sa.repo import AnchorError, call_name, calls_in, dotted, norm, walk_no_nested, kwarg
 
 REG = "annet.mesh.registry"
@@ -29,6 +29,7 @@ def run(c):
     r4(c)
     r5(c)
     r6(c)
+    r7(c)
 
 
 def r1(c):
@@ -368,3 +369,67 @@ def r6(c):
     c.floor("C15.R6", "functions with Optional[int] model parameters", nfun, 2)
     c.floor("C15.R6", "uses of Optional[int] model fields", nsites, 8)
     c.holds("C15.R6", m.rel, "mesh.executor/optional-int-tests", f"{nsites} uses in {nfun} functions, none in truth-value position") if not [1 for v in c.instances if v["rule"] == "C15.R6" and v["verdict"] != "HOLDS"] else None
+
+
+def _dep_names(fn, rd, gm, expr, limit=400):
+    """names of the function's scope the value of `expr` may depend on (data dependence through reaching definitions, call arguments and receivers included,
+    plus the conditions the defining statements sit under)"""
+    out, todo, seen = {}, [expr], set()
+    while todo and len(seen) < limit:
+        e = todo.pop()
+        if id(e) in seen:
+            continue
+        seen.add(id(e))
+        for n in ast.walk(e):
+            if isinstance(n, ast.Name) and isinstance(n.ctx, ast.Load):
+                out.setdefault(n.id, n)
+                for d in rd.defs(n):
+                    if d.value is not None:
+                        todo.append(d.value)
+                    if d.stmt is not None and d.kind not in ("param",):
+                        try:
+                            for t, _pol in gm.of(d.stmt):
+                                todo.append(t)
+                        except Exception:
+                            pass
+    return out
+
+
+def r7(c):
+    repo = c.repo
+    c.rule("C15.R7", "handler results are accumulated as acc[key(x)] = merge(acc[key(x)], x); with commutative / conflicting mergers (R4) the outcome is independent of the "
+                     "registration order only if the key is a function of the handler's own result: at every `merge(ACC[K], ...)` in mesh/executor.py the key K must not depend "
+                     "(through definitions, call arguments or the conditions it is chosen under) on the accumulator ACC, i.e. on what earlier handlers produced")
+    m = repo.module(EXE)
+    sites = 0
+    for q, fn0 in m.defs.items():
+        if not isinstance(fn0, ast.FunctionDef):
+            continue
+        fn = repo.func(EXE, q)
+        accs = []
+        for call in calls_in(fn):
+            if call_name(call) != "merge":
+                continue
+            for a in call.args:
+                if isinstance(a, ast.Subscript) and isinstance(a.value, ast.Name):
+                    accs.append((call, a))
+        if not accs:
+            continue
+        c.count("functions")
+        rd = ReachingDefs(fn)
+        gm = GuardMap(fn)
+        params = {x.arg for x in fn.args.args}
+        for call, sub in accs:
+            ACC = sub.value.id
+            if ACC in params:
+                continue
+            sites += 1
+            # conditions that only ask whether the key is already present are the accumulate idiom itself
+            deps = _dep_names(fn, rd, gm, sub.slice)
+            if ACC in deps:
+                c.violated("C15.R7", repo.loc(m, sub), f"{q}/merge-key:{ACC}", f"the key `{norm(sub.slice)}` under which a handler's result is merged into `{ACC}` depends on `{ACC}` itself "
+                           "(what earlier handlers stored): which stored session a result joins then depends on the order the handlers ran in, so permuting the registration "
+                           "changes the peers", key_text=f"key-depends-on-acc:{ACC}")
+            else:
+                c.holds("C15.R7", repo.loc(m, sub), f"{q}/merge-key:{ACC}", f"key `{norm(sub.slice)}` depends on {sorted(deps)[:8]} only")
+    c.floor("C15.R7", "accumulate-by-key merge sites", sites, 2)
